@@ -273,6 +273,18 @@ fn resolve_unit(unit: u64, out: &mut WorkerOut) {
           Ok(Ok(_)) => {
             out.nontrivial += 1;
             let got = s.get("y");
+            // the property itself, after the re-solve: the same history with the formula fully parenthesised by the reference grouping
+            let operands: Vec<E> = { let mut ci = 0; (0..=nops).map(|i| if i == pos { E::Var("m".into()) } else { let c = consts[ci % consts.len()]; ci += 1; E::Var(c.to_string()) }).collect() };
+            let ops_static: Vec<&'static str> = ops.iter().map(|o| RESOLVE_OPS.iter().find(|r| *r == o).copied().unwrap_or("-")).collect();
+            let paren = reference_tree(&operands, &ops_static).full();
+            let mut s2 = Session::new();
+            if s2.run(&format!("~m := {}", v0)).is_value() && s2.run(&format!("y := {}", paren)).is_value() && s2.run(&format!("m = {}", v1)).is_value() {
+              if let Ok(Ok(_)) = std::panic::catch_unwind(std::panic::AssertUnwindSafe(|| s2.intrp.step(0, 1))) {
+                let g2 = s2.get("y");
+                if g2 != got { out.fail(format!("C02|grouping-differs-after-resolve|{}", locus), format!("{}   versus y := {}", case, paren), format!("unparenthesised: {:?}, parenthesised by the documented grouping: {:?}", got.as_ref().map(|c| c.short()), g2.map(|c| c.short()))); }
+                else { out.count("resolve_grouping_agrees"); }
+              }
+            }
             if got.as_ref() == Some(&want_new) { out.count("resolve_recomputed"); }
             else if got.as_ref() == Some(&want_old) { out.count("resolve_kept_old_value"); }
             else { out.fail(format!("C02|regrouped-after-resolve|{}", locus), case, format!("the formula over m = {} is {}, over m = {} it is {}; after the re-solve y holds {:?}", v0, want_old.short(), v1, want_new.short(), got.map(|c| c.short()))); }
